@@ -87,18 +87,25 @@ def check(spec, ctx):
         relate(M, b.seq, g.k, "module")
     product, warns = sut(c01.run_assembly, V, M, bv, bms, a["order"])
 
-    def mirrored():
+    def mirrored(real):
         from Bio.Seq import Seq
         from moclo.record import CircularRecord
-        vec = V(CircularRecord(Seq(dna.rc(bv.seq)), id="v"))
-        mods = [M(CircularRecord(Seq(dna.rc(b.seq)), id=b.id)) for b in bms]
+        if real:
+            # the records reverse_complement() itself returns (default ids)
+            vec = V(bv.record().reverse_complement())
+            mods = [M(b.record().reverse_complement()) for b in bms]
+        else:
+            vec = V(CircularRecord(Seq(dna.rc(bv.seq)), id="v"))
+            mods = [M(CircularRecord(Seq(dna.rc(b.seq)), id=b.id)) for b in bms]
         with warnings.catch_warnings():
             warnings.simplefilter("ignore")
             return vec.assemble(*[mods[i] for i in a["order"]])
-    p2 = sut(mirrored)
-    if dna.canon(str(p2.seq)) != dna.canon(dna.rc(str(product.seq))):
-        raise Violation("ASSEMBLY", "%s, %d modules: assembling the reverse complements does not give "
-                        "the reverse complement of the product" % (a["enzyme"], len(bms)))
+    for real in (False, True):
+        p2 = sut(mirrored, real)
+        if dna.canon(str(p2.seq)) != dna.canon(dna.rc(str(product.seq))):
+            raise Violation("ASSEMBLY", "%s, %d modules: assembling the reverse complements (%s) does not "
+                            "give the reverse complement of the product" % (
+                                a["enzyme"], len(bms), "reverse_complement()" if real else "string rc"))
     wrapped = sum(1 for b in [bv] + bms if b.origin_inside_structure())
     ctx.note(spec, True, ["gen", "geometry:%d/%d/%d" % g.key] + (["wrapped"] if wrapped else []))
 
